@@ -19,6 +19,7 @@ GEOMS = {
     "triangle": '<path d="M20,70 L52,18 L82,62 Z"{a}/>',
     "twosub": '<path d="M15,30 L60,22 L45,48 M30,80 L85,58 L70,85 Z"{a}/>',
     "scurve": '<path d="M15,55 C30,5 50,5 52,45 S75,90 88,40"{a}/>',
+    "spike": '<path d="M30,82 L50,17 L60,82"{a}/>',
     "rect": '<rect x="22" y="28" width="52" height="38"{a}/>',
     "circle": '<circle cx="50" cy="48" r="27"{a}/>',
     "line": '<line x1="18" y1="25" x2="80" y2="70"{a}/>',
@@ -75,7 +76,7 @@ def all_cases(tier):
             if dash != "none" and geom in ("rect", "line") and where != "attr":
                 continue
             yield (geom, 10, cap, join, 4, dash, off, tf, where, fill, tr)
-        for geom, ml, join in itertools.product(("polyline", "triangle"), (1, 10), ("miter",)):
+        for geom, ml, join in itertools.product(("polyline", "triangle", "spike"), (1, 10), ("miter",)):
             yield (geom, 10, "butt", join, ml, "none", 0, None, "attr", "none", False)
         for geom in GEOMS:
             yield (geom, 4, "round", "round", 4, "10 5", 0, None, "attr", "orange", False)
